@@ -190,15 +190,18 @@ CLAIMS = {
              "chunk_fetch_factor, parts A/B, the shape test added by the fix): with compatible chunk sizes "
              "(f | old chunk, new chunk = half or twice half) for ALL sizes, chunk sizes and chunk positions "
              "every copy succeeds and every voxel of the new level is computed from exactly the old voxels the "
-             "global downscale uses (axis_correct), and that source block lies in one old chunk; kernel-checked "
+             "global downscale uses (axis_correct), and that source block lies in one old chunk; NEVER SILENTLY "
+             "WRONG: for ALL sizes and ALL chunk sizes, compatible or not, if the schedule of every new chunk "
+             "completes without raising then every new voxel comes from exactly the right old voxels, and with "
+             "several new chunks on an axis success is possible only for compatible sizes; kernel-checked "
              "witnesses that the half=1/fetch-factor-4 case (repaired defect F24) and chunk size 1 on a halved "
              "axis are refused with an error. Tie/oracle: every transition run in isolation on the real code "
              "with poisoned np.empty (two patterns), the new level read back and compared with the real "
              "downscaler applied to the whole previous level; ok/error outcome compared with the Lean plan, "
              "incl. arbitrary non-power-of-two hand-made chunk sizes.",
         note="Trusted: Lean kernel; standard axioms (Mathlib ring for two product identities); hand-written "
-             "per-axis model (tie = sampling); 'error-or-correct' outside the compatible case is tested, not "
-             "proved; block-locality of the downscalers from C07.",
+             "per-axis model (tie = sampling); the three axes are independent in the code (separate slices), "
+             "which is part of the model, not a theorem; block-locality of the downscalers from C07.",
         technique="Lean 4 proof (linear extent arithmetic per axis) + differential correspondence with "
                   "whole-array oracle",
         ref="DESIGN.md §6 C06"),
